@@ -794,6 +794,7 @@ def run_ddl_case(line, vrt, std):
     stmts = json.loads(line)
     S = s_schema.ChainedSchema(std, s_schema.EMPTY_SCHEMA, s_schema.EMPTY_SCHEMA)
     fails, out = [], []
+    classes_seen = set()
     snaps = [(S, fingerprint(S))]
     base_attrs = attrs(std)
     for n, st in enumerate(stmts):
@@ -812,6 +813,7 @@ def run_ddl_case(line, vrt, std):
         if S2 is not None:
             S = S2
             snaps.append((S, fingerprint(S)))
+            classes_seen.update(S._top_schema._id_to_type.values())
             for F in (S._top_schema, S._global_schema):
                 for b in mon_index(F, set()):
                     fails.append(f'{b}@{n}')
@@ -833,7 +835,7 @@ def run_ddl_case(line, vrt, std):
         if fingerprint(Sk) != fk:
             fails.append(f'frozen-value-{k}-changed-later')
     nobj = len(S._top_schema._id_to_type)
-    res = '|'.join(out) + f'#{nobj}'
+    res = '|'.join(out) + f'#{nobj}#' + ','.join(sorted(classes_seen))
     seen = set()
     for f in fails:
         kind = f.split('@')[0]
